@@ -493,22 +493,24 @@ class NigLaw(Law):
         return np.array([self._mix(float(v), True) for v in _arr(x)])
 
     def ppf(self, q):
-        d = stats.norminvgauss(self.al, self.be)
+        """approximate quantiles (threshold placement only): empirical quantiles of 2*10^6 variates drawn
+        by numpy from the mixture representation, extended by the exponential tail slopes"""
         q = _arr(q)
+        rng = np.random.default_rng(20261002)
+        z = rng.wald(1.0 / self.g, 1.0, size=2_000_000)
+        x = np.sort(self.be * z + np.sqrt(z) * rng.standard_normal(z.size))
+        n = x.size
         out = np.empty_like(q)
-        mean = self.be / self.g
-        sd = math.sqrt(self.al ** 2 / self.g ** 3)
         for i, qq in enumerate(q):
-            # bisection on our own cdf/sf from a normal-approximation bracket
-            lo, hi = mean - 60 * sd - 60, mean + 60 * sd + 60
-            f = (lambda x: self._mix(x, False) - qq) if qq <= 0.5 else (lambda x: (1 - qq) - self._mix(x, True))
-            for _ in range(70):
-                mid = 0.5 * (lo + hi)
-                if f(mid) < 0:
-                    lo = mid
-                else:
-                    hi = mid
-            out[i] = 0.5 * (lo + hi)
+            if qq < 20.0 / n:
+                # lower tail ~ exp((alpha + beta) x): extrapolate from the 1e-4 quantile
+                x0 = x[int(1e-4 * n)]
+                out[i] = x0 + math.log(qq / 1e-4) / (self.al + self.be)
+            elif qq > 1 - 20.0 / n:
+                x0 = x[int((1 - 1e-4) * n)]
+                out[i] = x0 - math.log((1 - qq) / 1e-4) / (self.al - self.be)
+            else:
+                out[i] = x[min(n - 1, int(qq * n))]
         return out
 
 
@@ -658,11 +660,55 @@ class HypergeometricLaw(LatticeLaw):
         b = n * K * (N - K) * (N - n) * (N - 2) * (N - 3)
         return self.mean, self.var, sk, a / b
 
+    def _table(self):
+        """exact pmf table by 50-digit log-gamma over mean +- 12 sd (huge N, moderate variance: scipy hangs there)"""
+        if getattr(self, '_tab', None) is None:
+            lo, hi = self.support
+            sd = math.sqrt(max(self.var, 0.0))
+            a = max(lo, int(math.floor(self.mean - 12 * sd - 20)))
+            b = min(hi, int(math.ceil(self.mean + 12 * sd + 20)))
+            old = mp.mp.dps
+            mp.mp.dps = 50
+            N, K, n = self.N, self.K, self.n
+
+            def lc(x, y):
+                return mp.loggamma(x + 1) - mp.loggamma(y + 1) - mp.loggamma(x - y + 1)
+            den = lc(N, n)
+            pm = [mp.exp(lc(K, k) + lc(N - K, n - k) - den) for k in range(a, b + 1)]
+            cum = []
+            acc = mp.mpf(0)
+            for v in pm:
+                acc += v
+                cum.append(acc)
+            up = []
+            acc = mp.mpf(0)
+            for v in reversed(pm):
+                up.append(acc)
+                acc += v
+            up.reverse()
+            self._tab = (a, b, [float(c) for c in cum], [float(u) for u in up])
+            mp.mp.dps = old
+        return self._tab
+
+    def _tab_eval(self, k, upper):
+        a, b, cum, up = self._table()
+        out = []
+        for v in k:
+            if v < a:
+                out.append(1.0 if upper else 0.0)
+            elif v > b:
+                out.append(0.0 if upper else 1.0)
+            else:
+                out.append(up[int(v) - a] if upper else cum[int(v) - a])
+        return np.array(out)
+
     def cdf(self, k):
         k = np.floor(_arr(k))
         lo, hi = self.support
         if self.big and self.var > 1e6:
             r = edgeworth_cdf(k, *self._cum())
+        elif self.big:
+            r = self._tab_eval(k, False)
         else:
             r = stats.hypergeom.cdf(k, self.N, self.K, self.n)
         return np.where(k < lo, 0.0, np.where(k >= hi, 1.0, r))
@@ -672,6 +718,8 @@ class HypergeometricLaw(LatticeLaw):
         lo, hi = self.support
         if self.big and self.var > 1e6:
             r = edgeworth_cdf(k, *self._cum(), upper=True)
+        elif self.big:
+            r = self._tab_eval(k, True)
         else:
             r = stats.hypergeom.sf(k, self.N, self.K, self.n)
         return np.where(k < lo, 1.0, np.where(k >= hi, 0.0, r))
